@@ -47,16 +47,29 @@ struct Ctx {
         }
         err.assign((size_t)nin * t * base, 0);
     }
-    void build_real(uint64_t seed) {
+    // rows made by the library; every row (i,j,h) must encrypt h*s_i/base^(j+1) with noise of the key's standard deviation alpha:
+    // |error| <= 9 alpha (+2 units of rounding) or the row is reported (returns a description, "" if all rows are fine)
+    std::string build_real(uint64_t seed) {
         seed_lib(seed);
         lweCreateKeySwitchKey(ks, Kin, Kout);
         err.assign((size_t)nin * t * base, 0);
+        std::string bad;
+        const double lim = 9.0 * Pout->alpha_min * 4294967296.0 + 2;
+        row_err_sum2 = 0; row_err_cnt = 0;
         for (int i = 0; i < nin; i++) for (int j = 0; j < t; j++) for (int h = 0; h < base; h++) {
             uint32_t ph = phase(&ks->ks[i][j][h], Kout->key, nout);
             uint32_t msg = (uint32_t)(h * Kin->key[i]) * ((uint32_t)1 << (32 - (j + 1) * bb));
-            err[((size_t)i * t + j) * base + h] = (int32_t)(ph - msg);
+            int32_t e = (int32_t)(ph - msg);
+            err[((size_t)i * t + j) * base + h] = e;
+            if (h) { row_err_sum2 += (double)e * e; row_err_cnt++; }
+            if (bad.empty() && std::fabs((double)e) > lim) {
+                char buf[300]; snprintf(buf, sizeof buf, "lweCreateKeySwitchKey t=%d basebit=%d: row (i=%d, j=%d, h=%d) has phase %u, expected h*s_i*2^-%d = %u: off by %d units, noise stdev is %.3g units (s_i=%d)", t, bb, i, j, h, ph, (j + 1) * bb, msg, e, Pout->alpha_min * 4294967296.0, Kin->key[i]);
+                bad = buf;
+            }
         }
+        return bad;
     }
+    double row_err_sum2 = 0; size_t row_err_cnt = 0;
 };
 // boundary-biased mask coefficient
 static uint32_t bd_value(SplitMix &r, const Ctx &X) {
@@ -123,7 +136,7 @@ static std::string run_case(const J &c, std::string &sig) {
     const bool real = c["k"].s() == "real";
     Ctx X(nin, nout, t, bb, real ? std::ldexp(1.0, -(int)c["alog"].i(15)) : 0.0);
     X.keys((uint64_t)c["keyseed"].i(), (int)c["keykind"].i());
-    if (real) X.build_real((uint64_t)c["keyseed"].i()); else X.build_noisefree((uint64_t)c["keyseed"].i());
+    if (real) { std::string bad = X.build_real((uint64_t)c["keyseed"].i()); if (!bad.empty()) { sig = "c08/real-row"; return bad; } } else X.build_noisefree((uint64_t)c["keyseed"].i());
     LweSample *in = new_LweSample(X.Pin), *out = new_LweSample(X.Pout);
     GuardBuf go((size_t)nout * 4, c["tail"].i(1) != 0);
     Torus32 *save = out->a; out->a = go.as<Torus32>();
@@ -201,7 +214,15 @@ int main(int argc, char **argv) {
         int t = (int)A.i("t", 8), bb = (int)A.i("basebit", 2), nin = (int)A.i("nin", 1024), nout = (int)A.i("nout", 500), samples = (int)A.i("samples", 20000);
         uint64_t seed = A.u("seed", 1);
         Ctx X(nin, nout, t, bb, std::ldexp(1.0, -(int)A.i("alog", 15)));
-        X.keys(seed, 0); X.build_real(seed);
+        X.keys(seed, 0);
+        J cur = J::object(); cur.set("k", "realstats").set("t", t).set("basebit", bb).set("nin", nin).set("nout", nout).set("seed", seed); set_current(cur);
+        { std::string bad = X.build_real(seed); if (!bad.empty()) { H.R.fail(cur, bad, "c08/real-row"); return H.finish(); } }
+        { // the rows carry noise of the key's standard deviation (variance test over all rows, z = 6; +1/12 for the rounding to 2^-32)
+            double sig2 = std::pow(X.Pout->alpha_min * 4294967296.0, 2) + 1.0 / 12, v = X.row_err_sum2 / (double)X.row_err_cnt;
+            double z = std::fabs(v / sig2 - 1) / std::sqrt(2.0 / (double)X.row_err_cnt);
+            H.R.stats["row_noise_var_units2"] = v; H.R.stats["row_noise_var_expected"] = sig2; H.R.stats["z_row_var"] = z;
+            if (z > 6) { char buf[200]; snprintf(buf, sizeof buf, "key-switching key rows: noise variance %.4g units^2 over %zu rows, the key's alpha gives %.4g (z=%.1f)", v, X.row_err_cnt, sig2, z); H.R.fail(cur, buf, "c08/real-row-stats"); return H.finish(); }
+        }
         LweSample *in = new_LweSample(X.Pin), *out = new_LweSample(X.Pout);
         SplitMix r(seed ^ 0x5151);
         // expectation of the noise term under uniform digits, from the measured row errors
@@ -213,7 +234,6 @@ int main(int argc, char **argv) {
             em -= m1; ev += m2 - m1 * m1;
         }
         double s1 = 0, s2 = 0;
-        J cur = J::object(); cur.set("k", "realstats").set("t", t).set("basebit", bb).set("nin", nin).set("nout", nout).set("seed", seed); set_current(cur);
         for (int q = 0; q < samples; q++) {
             for (int i = 0; i < nin; i++) in->a[i] = r.i32();
             in->b = r.i32();
